@@ -219,6 +219,8 @@ class Ctx(object):
         self.suppressed_hits = 0
         self.inconclusive = []
         self.samples = []
+        self.metrics = {}
+        self.counts = collections.Counter()
         self.last_fail = None
         self.first_fail_time = None
         self.best_fail = None
@@ -227,7 +229,7 @@ class Ctx(object):
     def export(self):
         return dict(evaluations=self.evaluations, nontrivial=self.nontrivial, labels=self.labels,
                     known_hits=self.known_hits, suppressed_hits=self.suppressed_hits,
-                    inconclusive=self.inconclusive, samples=self.samples)
+                    inconclusive=self.inconclusive, samples=self.samples, metrics=self.metrics, counts=self.counts)
 
 
 def _alarm(signum, frame):
@@ -257,6 +259,12 @@ def evaluate(ctx, case):
         return []
     for lab in info.get("labels", []):
         ctx.labels[lab] += 1
+    for k, val in (info.get("counts") or {}).items():
+        ctx.counts[k] += int(val)
+    for k, val in (info.get("metrics") or {}).items():
+        # metrics are "worst observed / allowed" ratios (or plain maxima), kept as maxima in the evidence
+        if val is not None and val == val and (k not in ctx.metrics or val > ctx.metrics[k]):
+            ctx.metrics[k] = float(val)
     if info.get("nontrivial"):
         ctx.nontrivial.add(case_hash(case))
         if len(ctx.samples) < 3:
@@ -281,6 +289,8 @@ def _shard_worker(args):
     pid, tier, part_name, shard, nshards, seed, shrink_budget = args
     os.environ.setdefault("OMP_NUM_THREADS", "1")
     try:
+        import faulthandler  # kill -USR1 <worker pid> dumps its python stack to stderr
+        faulthandler.register(signal.SIGUSR1, all_threads=False)
         prop = load_prop(pid)
         part = [p for p in prop.parts(tier) if p.name == part_name][0]
         findings = load_known(pid)
@@ -308,7 +318,7 @@ def _shard_worker(args):
     except BaseException as e:  # harness error: report, never a VIOLATION
         return dict(error="{}: {}\n{}".format(type(e).__name__, e, traceback.format_exc()), failures=[],
                     evaluations=0, nontrivial=set(), labels=collections.Counter(), known_hits=collections.Counter(),
-                    suppressed_hits=0, inconclusive=[], samples=[])
+                    suppressed_hits=0, inconclusive=[], samples=[], metrics={}, counts=collections.Counter())
 
 
 def _hypothesis_rounds(ctx, part, n_examples, hseed, max_rounds=6):
@@ -325,7 +335,7 @@ def _hypothesis_rounds(ctx, part, n_examples, hseed, max_rounds=6):
         ctx.last_fail = None
         ctx.first_fail_time = None
         ctx.best_fail = None
-        before = ctx.evaluations
+        ctx.round_generated = 0
 
         @hypothesis.seed(derive_seed(hseed, rnd))
         @settings(max_examples=remaining, database=None, deadline=None, derandomize=False,
@@ -341,6 +351,8 @@ def _hypothesis_rounds(ctx, part, n_examples, hseed, max_rounds=6):
                     ctx.last_fail = ctx.best_fail
                     raise _ViolationFound()
                 return
+            if ctx.first_fail_time is None:
+                ctx.round_generated += 1  # only the generation phase consumes the example budget, shrinking does not
             unknown = evaluate(ctx, case)
             if unknown:
                 if ctx.first_fail_time is None:
@@ -372,8 +384,7 @@ def _hypothesis_rounds(ctx, part, n_examples, hseed, max_rounds=6):
                 raise HarnessError("flaky check: {}".format(e))
         else:
             break
-        used = ctx.evaluations - before
-        remaining -= max(used, 1)
+        remaining -= max(ctx.round_generated, 1)
     return failures
 
 
@@ -431,7 +442,7 @@ def run_property(pid, tier, seed, only_part=None):
             os.remove(os.path.join(outdir, name))
 
     total = dict(evaluations=0, nontrivial=set(), labels=collections.Counter(), known_hits=collections.Counter(),
-                 suppressed_hits=0, inconclusive=[], samples=[])
+                 suppressed_hits=0, inconclusive=[], samples=[], metrics={}, counts=collections.Counter())
     failures = []
     errors = []
     part_stats = {}
@@ -505,6 +516,8 @@ def run_property(pid, tier, seed, only_part=None):
             exhaustive_parts=[p.name for p in parts if p.exhaustive],
             parts=part_stats,
             classes=dict(sorted(total["labels"].items())),
+            worst_observed=dict(sorted(total["metrics"].items())),
+            sub_evaluations=dict(sorted(total["counts"].items())),
             known_findings_hit=dict(total["known_hits"]),
             suppressed_after_first_report=total["suppressed_hits"],
             inconclusive_cases=n_inconclusive,
@@ -546,6 +559,10 @@ def _merge(total, res):
     total["known_hits"].update(res["known_hits"])
     total["suppressed_hits"] += res["suppressed_hits"]
     total["inconclusive"] += res["inconclusive"]
+    total["counts"].update(res.get("counts", {}))
+    for k, val in res.get("metrics", {}).items():
+        if k not in total["metrics"] or val > total["metrics"][k]:
+            total["metrics"][k] = val
     for s in res["samples"]:
         if len(total["samples"]) < 5:
             total["samples"].append(s)
